@@ -105,7 +105,7 @@ def codegen(crate, profile, features, pkg, timeout=1800, use_cache=True):
         with open(cache) as f:
             return True, json.load(f), "(harness list from cache)", 0.0
     clean_harness_builds(crate, profile, pkg)
-    cmd = ["cargo", "kani", "--target-dir", target_dir(crate, profile), "--only-codegen"]
+    cmd = ["cargo", "kani", "--target-dir", target_dir(crate, profile), "-Z", "stubbing", "--only-codegen"]
     if features:
         cmd += ["--features", ",".join(features)]
     rc, out, wall, to = run_cmd(cmd, crate_dir(crate), base_env(profile), timeout,
@@ -190,7 +190,7 @@ def parse_output(out):
 
 def run_harness(h, tier_timeout):
     """Single harness, own cargo-kani process (used for replay extraction and heavy harnesses)."""
-    cmd = ["cargo", "kani", "--target-dir", target_dir(h["crate"], h["profile"])]
+    cmd = ["cargo", "kani", "--target-dir", target_dir(h["crate"], h["profile"]), "-Z", "stubbing"]
     if h["features"]:
         cmd += ["--features", ",".join(h["features"])]
     cmd += ["--exact", "--harness", h["name"]] + list(h.get("flags", []))
@@ -214,7 +214,7 @@ def run_group(hs, jobs, tier_timeout, progress=None):
     resdir = os.path.join(tdir, "result_output_dir")
     shutil.rmtree(resdir, ignore_errors=True)
     timeout = h0.get("timeout") or tier_timeout
-    cmd = ["cargo", "kani", "--target-dir", tdir]
+    cmd = ["cargo", "kani", "--target-dir", tdir, "-Z", "stubbing"]
     if h0["features"]:
         cmd += ["--features", ",".join(h0["features"])]
     cmd += ["-Z", "unstable-options", "--output-into-files", "--output-format", "terse",
